@@ -3,6 +3,8 @@
 
 def _nontrivial(line):
     f = line.split(" ; ")[0].split()
+    if f[0] == "C07H":
+        return True
     if f[0] == "C07W":
         return f[2] != "-" or f[3] != "-"
     # a competing value is present: some query pair or a body
@@ -39,3 +41,4 @@ CFG = dict(
 )
 
 CFG["rule"] += ' C07X: the same with, in addition, a query key that cannot be applied (through a repeated / map field): refusing is fine, a handler that is reached sees the captures. C07W also with an empty text / binary frame sent before the first message.'
+CFG["rule"] += " C07H: a client-streaming upload whose rule binds a field inside the HttpBody body by a path variable (/c07h/{file.content_type=*/*}/{filename}, body file), Content-Type header absent / equal / different, first message read with AsHTTPBodyReader or with RecvMsg: the handler sees the captured values. C07 rules R17 / R18: variables below a message field that is a member of a oneof, with a sibling member set through the query."
